@@ -56,7 +56,11 @@ impl DurationEstimator {
                 duration.extend_from_slice(&curr_duration);
             } else if i + 1 == times.len() {
                 eprintln!("HTS_SStreamSet_create: The time of final label is not specified.");
-                Self::estimate_duration(&self.parameters[next_state..state + self.nstate], 0.0);
+                let curr_duration = Self::estimate_duration(
+                    &self.parameters[next_state..state + self.nstate],
+                    0.0,
+                );
+                duration.extend_from_slice(&curr_duration);
             }
             state += self.nstate;
         }
